@@ -36,7 +36,7 @@ ASSUMPTIONS = [
     "an exception raised by a derivation is 'no table produced' (e.g. Table.concatenate needs an index column called 'name', "
     "cols[...] on a table without index) and is counted, not raised",
 ]
-REQUIRED_CLASSES = ["op:rows", "op:cols", "op:cols-expr", "op:add", "op:concatenate", "op:mul", "op:copy", "op:transpose",
+REQUIRED_CLASSES = ["op:rows", "op:cols", "op:cols-expr", "op:select-cols", "op:select-rows", "op:cols-all", "op:ctor-like", "op:add", "op:concatenate", "op:mul", "op:copy", "op:transpose",
                     "op:head", "op:tail", "op:reverse", "op:assign-existing", "op:assign-new", "op:expr", "depth>=2",
                     "source:empty", "ctor:2d-column", "ctor:scalars", "ctor:index=key"]
 COLS = ["a", "b", "c1", "q"]
@@ -132,7 +132,8 @@ def scripts(draw):
     ctors = [draw(ctor_spec()) for _ in range(draw(st.integers(1, 3)))]
     steps = []
     for _ in range(draw(st.integers(3, 25))):
-        op = draw(st.sampled_from(["rows"] * 4 + ["cols", "cols", "cols-expr", "add", "add", "concatenate", "mul", "copy",
+        op = draw(st.sampled_from(["rows"] * 4 + ["cols", "cols", "cols-expr", "cols-all", "select-cols", "select-rows", "ctor-like",
+                                   "add", "add", "concatenate", "mul", "copy",
                                    "transpose", "head", "tail", "reverse", "assign-existing", "assign-existing",
                                    "assign-new", "expr", "expr"]))
         s = {"op": op, "src": draw(st.integers(0, 50))}
@@ -142,6 +143,15 @@ def scripts(draw):
         elif op == "cols":
             s["cols"] = draw(st.lists(st.sampled_from(["a", "b", "kind", "o", "m", "a2", "w"]), min_size=1, max_size=3, unique=True))
             s["form"] = draw(st.sampled_from(["str", "list", "tuple"]))
+        elif op == "cols-all":
+            s["form"] = draw(st.sampled_from(["slice", "none", "names"]))
+        elif op == "select-cols":
+            s["own_list"] = draw(st.booleans())
+        elif op == "select-rows":
+            s["seed"] = [draw(st.integers(0, 20)) for _ in range(4)]
+        elif op == "ctor-like":
+            s["omit_index"] = draw(st.booleans())
+            s["short_index"] = draw(st.booleans())
         elif op == "cols-expr":
             s["cols"] = [draw(st.sampled_from([e for e in EXPRS if " " not in e]))] + \
                 draw(st.lists(st.sampled_from(["a", "b"]), max_size=1))
@@ -341,6 +351,36 @@ def exec_script(ctx, case):
                         arg = names[0]
                     out = t.cols[arg]
                     expect = {c: list_cells(before, c) for c in names if c in before["data"]}
+                elif op == "cols-all":
+                    # the whole column list: cols[:] / cols[None] / cols[cols.names]
+                    desc = f"T{src_i}.cols[{'[:]' if s['form'] == 'slice' else 'None' if s['form'] == 'none' else 'cols.names'}]"
+                    arg = slice(None) if s["form"] == "slice" else (None if s["form"] == "none" else t.cols.names)
+                    out = t.cols[arg]
+                    expect = {c: list_cells(before, c) for c in before["cols"]}
+                elif op == "select-cols":
+                    # documented low-level API: table._select_cols(iterable of column names)
+                    names = t.cols.names if s["own_list"] else list(t._col_names)
+                    desc = f"T{src_i}._select_cols({'cols.names' if s['own_list'] else 'list of names'})"
+                    out = t._select_cols(names)
+                    expect = {c: list_cells(before, c) for c in before["cols"]}
+                elif op == "select-rows":
+                    n = len(t)
+                    idx = [x % n for x in s["seed"][:3]] if n else []
+                    desc = f"T{src_i}._select_rows({idx})"
+                    out = t._select_rows(idx)
+                    expect = rows_expect(before, idx)
+                elif op == "ctor-like":
+                    # the checked constructor on this table's own data with an explicit column list
+                    cols_arg = [c for c in t._col_names if not (s["omit_index"] and c == t._index)]
+                    data = dict(t._data)
+                    if s["short_index"] and s["omit_index"] and t._index is not None and len(t) > 1:
+                        data[t._index] = np.asarray(data[t._index])[:-1]
+                    desc = f"Table(T{src_i} data, col_names={'without index' if s['omit_index'] else 'all'}" + \
+                        (", shorter index array)" if s["short_index"] and s["omit_index"] else ")")
+                    if not cols_arg:
+                        rendered["steps"].append(desc + " skipped")
+                        continue
+                    out = Table(data, col_names=cols_arg, index=t._index)
                 elif op == "cols-expr":
                     names = list(s["cols"])
                     desc = f"T{src_i}.cols[{names!r}]"
@@ -405,7 +445,7 @@ def exec_script(ctx, case):
             if f:
                 f.sig += ":" + op
                 return finish(f)
-            if op in ("rows", "cols", "cols-expr", "head", "tail", "reverse"):
+            if op in ("rows", "cols", "cols-expr", "cols-all", "select-cols", "select-rows", "head", "tail", "reverse"):
                 for k, v in before["scalars"].items():
                     if k not in out._data or cell(out._data[k]) != v:
                         return finish(Failure(f"C14:scalar-not-carried-over:{op}", dict(where, scalar=k)))
